@@ -42,6 +42,46 @@ def c04_programs(chk, n):
     return progs
 
 
+def top_alloca_sizes(f):
+    """sizes of the leading group of adjacent constant allocas of a function as written"""
+    sizes, regs = [], set()
+    for ins in f.body:
+        if ins.op == 'alloca' and isinstance(ins.ops[1], G.Imm) and isinstance(ins.ops[0], G.R) \
+                and ins.ops[0].name not in regs:
+            sizes.append(ins.ops[1].v); regs.add(ins.ops[0].name)
+        else:
+            break
+    return sizes
+
+
+def alloca_tie(chk, progs):
+    """correspondence for the consolidation model (C04/Simplify.consolidate, theorems alloca_merge_*):
+    the offsets/total MIR_link gives to adjacent constant allocas (library built with inlining off,
+    harness engine S) must be the ones the extracted model computes for the sizes as written"""
+    impl, model = c01.build(defs=dict(BUILDS)['noinline'])
+    eng = c01.run_impl_parallel(impl, [p.harness_line('S') for p in progs])
+    want, keys = [], []
+    for pi, p in enumerate(progs):
+        for it in p.items:
+            if it[0] == 'func':
+                sz = top_alloca_sizes(it[1])
+                if sz:
+                    keys.append((pi, it[1].name, sz))
+                    want.append('C ' + ' '.join('%x' % x for x in sz))
+    rc, mo, err = vlib.run_lines(model, want) if want else (0, [], '')
+    bad = []
+    for (pi, name, sz), m in zip(keys, mo):
+        got = dict(x.split(':', 1) for x in eng[pi].get('S', '').split()[1:] if ':' in x).get(name)
+        mm = dict(kv.split('=') for kv in m.split()[1:]) if m.startswith('ALLOCA') else {}
+        exp = '%s:%s' % (mm.get('tot'), mm.get('offs'))
+        chk.count(('alloca-tie', tuple(sz)), nontrivial=len(sz) >= 2)
+        chk.dist('alloca-tie:group-size', len(sz))
+        if got != exp:
+            bad.append(dict(func=name, sizes=sz, code=got, model=exp, mir_text=progs[pi].text()))
+    chk.log('alloca consolidation tie: %d groups compared, %d differ' % (len(keys), len(bad)))
+    return bad
+
+
 def run(chk):
     quick = chk.tier == 'quick'
     tie_ok, tie_msg = regen()
@@ -66,6 +106,12 @@ def run(chk):
                       'extracted Coq reference interpreter and, after MIR_link, by MIR_interp and MIR_gen -O0/-O1 with the '
                       'library built with default / zero / huge inlining thresholds; an evaluation = one (program, library '
                       'build, engine) triple; distinct by program text')
+    tie_bad = alloca_tie(chk, progs)
+    if tie_bad:
+        chk.finding('alloca-model-tie:' + ','.join(map(str, tie_bad[0]['sizes'])), tie_bad[0],
+                    'offsets MIR_link gives to consolidated allocas differ from the Coq model consolidate '
+                    '(theorems alloca_merge_disjoint/aligned no longer describe the code): sizes %s code %s model %s'
+                    % (tie_bad[0]['sizes'], tie_bad[0]['code'], tie_bad[0]['model']), no_input=total_div == 0)
     for p in progs[:2]:
         chk.sample(p.text()[:1500])
     if not tie_ok:
